@@ -1,0 +1,121 @@
+// Copyright 2023-2026 Buf Technologies, Inc.
+//
+// Licensed under the Apache License, Version 2.0 (the "License");
+// you may not use this file except in compliance with the License.
+// You may obtain a copy of the License at
+//
+//      http://www.apache.org/licenses/LICENSE-2.0
+//
+// Unless required by applicable law or agreed to in writing, software
+// distributed under the License is distributed on an "AS IS" BASIS,
+// WITHOUT WARRANTIES OR CONDITIONS OF ANY KIND, either express or implied.
+// See the License for the specific language governing permissions and
+// limitations under the License.
+
+//go:build verif
+
+package vanguard
+
+import (
+	"bytes"
+	"fmt"
+	"sync"
+)
+
+// Buffer-pool accounting for the verification harness: every buffer handed out by
+// bufferPool.Get is "live" until it is Put; a Put poisons the whole backing array so that a
+// reader still holding the buffer sees garbage deterministically, and the next Get checks that
+// nobody wrote into it while it was in the pool.
+
+const verifPoison = 0xDB
+
+var verifPool = struct { //nolint:gochecknoglobals
+	sync.Mutex
+	ids        map[*bytes.Buffer]int
+	live       map[*bytes.Buffer]bool
+	trace      []string
+	violations []string
+	tracing    bool
+}{ids: map[*bytes.Buffer]int{}, live: map[*bytes.Buffer]bool{}}
+
+func verifPoolID(buffer *bytes.Buffer) int {
+	id, ok := verifPool.ids[buffer]
+	if !ok {
+		id = len(verifPool.ids) + 1
+		verifPool.ids[buffer] = id
+	}
+	return id
+}
+
+func verifPoolRecord(kind string, id int) {
+	if verifPool.tracing {
+		verifPool.trace = append(verifPool.trace, fmt.Sprintf("%s%d", kind, id))
+	}
+}
+
+func verifPoolGet(buffer *bytes.Buffer, recycled bool) {
+	verifPool.Lock()
+	defer verifPool.Unlock()
+	id := verifPoolID(buffer)
+	verifPoolRecord("g", id)
+	if verifPool.live[buffer] {
+		verifPool.violations = append(verifPool.violations, fmt.Sprintf("get-of-live-buffer:%d", id))
+	}
+	if recycled {
+		raw := buffer.Bytes()
+		raw = raw[:cap(raw)]
+		for _, c := range raw {
+			if c != verifPoison {
+				verifPool.violations = append(verifPool.violations, fmt.Sprintf("written-after-put:%d", id))
+				break
+			}
+		}
+	}
+	verifPool.live[buffer] = true
+}
+
+func verifPoolPut(buffer *bytes.Buffer) {
+	verifPool.Lock()
+	defer verifPool.Unlock()
+	id := verifPoolID(buffer)
+	verifPoolRecord("p", id)
+	if !verifPool.live[buffer] {
+		verifPool.violations = append(verifPool.violations, fmt.Sprintf("put-of-buffer-not-held:%d", id))
+	}
+	delete(verifPool.live, buffer)
+	buffer.Reset()
+	raw := buffer.Bytes()
+	raw = raw[:cap(raw)]
+	for i := range raw {
+		raw[i] = verifPoison
+	}
+}
+
+func verifPoolWrap(orig, replacement *bytes.Buffer) {
+	verifPool.Lock()
+	defer verifPool.Unlock()
+	// orig is dropped for the garbage collector, the replacement takes its place
+	verifPoolRecord("d", verifPoolID(orig))
+	if !verifPool.live[orig] {
+		verifPool.violations = append(verifPool.violations, fmt.Sprintf("wrap-of-buffer-not-held:%d", verifPoolID(orig)))
+	}
+	delete(verifPool.live, orig)
+	verifPoolRecord("g", verifPoolID(replacement))
+	verifPool.live[replacement] = true
+}
+
+// VerifPoolTrace starts (true) or stops (false) recording of pool events and returns the events
+// and violations recorded so far, clearing both. Live buffers are forgotten on start so that a
+// request abandoned by a panic does not taint the next trace.
+func VerifPoolTrace(start bool) (trace, violations []string) {
+	verifPool.Lock()
+	defer verifPool.Unlock()
+	trace, violations = verifPool.trace, verifPool.violations
+	verifPool.trace, verifPool.violations = nil, nil
+	verifPool.tracing = start
+	if start {
+		verifPool.live = map[*bytes.Buffer]bool{}
+		verifPool.ids = map[*bytes.Buffer]int{}
+	}
+	return trace, violations
+}
